@@ -96,11 +96,15 @@ Section Good.
     pose proof (pp_frame _ _ _ _ _ _ _ PP) as P4.
     pose proof (pp_old_dirs _ _ _ _ _ _ _ PP) as P5.
     fold sp in P2, P4.
-    assert (DIRS : forall j, (j <= length cs)%nat -> fs_lookup f' (f_base cfg ++ firstn j cs) = Some Dir).
+    assert (DIRS0 : forall j, (j <= length cs)%nat -> fs_lookup f' (f_base cfg ++ firstn j cs) = Some Dir).
     { intros j Hj. destruct (f_base cfg ++ firstn j cs) eqn:X; auto. rewrite <- X.
       rewrite <- firstn_app_base. apply P3. rewrite app_length.
       assert (length (f_base cfg ++ firstn j cs) <> 0)%nat by (rewrite X; simpl; lia).
       rewrite app_length, firstn_length in H. lia. }
+    assert (DIRS : forall j, fs_lookup f' (f_base cfg ++ firstn j cs) = Some Dir).
+    { intros j. destruct (le_lt_dec j (length cs)). apply DIRS0; auto.
+      assert (H : firstn j cs = firstn (length cs) cs) by (rewrite firstn_all, firstn_all2; auto; lia).
+      rewrite H. apply DIRS0. lia. }
     assert (KEYP : forall k' d', keypath cfg k' d' -> d' <> d -> fs_lookup f' d' = fs_lookup f d').
     { intros k' d' K' N. apply P4; auto.
       - intros X. eapply keypath_not_staging; eauto. exists (we_names env 0). auto.
@@ -119,7 +123,7 @@ Section Good.
         intros p nd PN LP.
         destruct (path_eqb p d) eqn:X1.
         { apply path_eqb_eq in X1. subst p. rewrite E. rewrite app_assoc, dirname_snoc.
-          rewrite <- (firstn_all cs). apply DIRS. lia. }
+          rewrite <- (firstn_all cs) at 1. apply DIRS. }
         apply path_eqb_neq in X1.
         destruct (path_eqb p sp) eqn:X2.
         { apply path_eqb_eq in X2. subst p. rewrite P2 in LP. discriminate. }
@@ -136,18 +140,15 @@ Section Good.
                 apply IH. lia. }
         destruct DC as [[j [Hj X]]|DC].
         * subst p. destruct j; try lia. destruct (firstn_succ_snoc cs j) as [x FX]. lia.
-          rewrite FX. rewrite app_assoc, dirname_snoc. apply DIRS. lia.
+          rewrite FX. rewrite app_assoc, dirname_snoc. apply DIRS.
         * rewrite P4 in LP by auto.
           pose proof (g_wf _ _ G p nd PN LP) as PAR.
           assert (Q1 : dirname p <> d) by (intros Y; rewrite Y in PAR; congruence).
           assert (Q2 : dirname p <> sp) by (intros Y; rewrite Y in PAR; rewrite FR in PAR; discriminate).
           destruct (path_eqb (dirname p) (f_base cfg ++ firstn 1 cs)) eqn:Y1.
-          { apply path_eqb_eq in Y1. rewrite Y1. apply DIRS. destruct cs; simpl; try congruence; lia. }
+          { apply path_eqb_eq in Y1. rewrite Y1. apply DIRS. }
           destruct (path_eqb (dirname p) (f_base cfg ++ firstn 2 cs)) eqn:Y2.
-          { apply path_eqb_eq in Y2. rewrite Y2. rewrite <- (firstn_firstn) with (i := 2%nat) (j := length cs) at 1.
-            rewrite firstn_all. destruct (le_lt_dec 2 (length cs)).
-            - apply DIRS. auto.
-            - rewrite firstn_all2 by lia. rewrite <- (firstn_all cs) at 1. apply DIRS. lia. }
+          { apply path_eqb_eq in Y2. rewrite Y2. apply DIRS. }
           apply path_eqb_neq in Y1. apply path_eqb_neq in Y2.
           rewrite P4; auto. intros j Hj Y.
           assert (j = 1 \/ j = 2)%nat by (destruct (f_shard cfg); simpl in L; lia).
@@ -172,12 +173,9 @@ Section Good.
         { apply path_eqb_eq in X2. subst p. rewrite P2 in LP. discriminate. }
         apply path_eqb_neq in X2.
         destruct (path_eqb p (f_base cfg ++ firstn 1 cs)) eqn:Y1.
-        { apply path_eqb_eq in Y1. rewrite Y1 in LP. rewrite DIRS in LP. discriminate.
-          destruct cs; simpl; try congruence; lia. }
+        { apply path_eqb_eq in Y1. rewrite Y1 in LP. rewrite DIRS in LP. discriminate. }
         destruct (path_eqb p (f_base cfg ++ firstn 2 cs)) eqn:Y2.
-        { apply path_eqb_eq in Y2. rewrite Y2 in LP. destruct (le_lt_dec 2 (length cs)).
-          - rewrite DIRS in LP by auto. discriminate.
-          - rewrite firstn_all2 in LP by lia. rewrite <- (firstn_all cs) in LP. rewrite DIRS in LP by lia. discriminate. }
+        { apply path_eqb_eq in Y2. rewrite Y2 in LP. rewrite DIRS in LP. discriminate. }
         apply path_eqb_neq in Y1. apply path_eqb_neq in Y2.
         rewrite P4 in LP; auto. apply (g_files _ _ G _ _ LP).
         intros j Hj Y. assert (j = 1 \/ j = 2)%nat by (destruct (f_shard cfg); simpl in L; lia).
